@@ -370,6 +370,19 @@ pub fn run(p: &Params, which: Which) -> Outcome {
             } else {
                 gen::wire_frame(&mut rng, n).0
             };
+            if i % 160 == 3 && frame.len() > 12 {
+                // window sweep: every value of 8 consecutive payload bits at a random bit offset
+                // (hits all values of every small field and slices of the large ones)
+                let nbits = (frame.len() - 6) * 8;
+                let o = 24 + 12 + rng.usize_below(nbits - 12 - 8 + 1);
+                let mut g = frame.clone();
+                for v in 0..=255u128 {
+                    bits::write(&mut g, o, 8, v);
+                    crc::fix_crc(&mut g);
+                    judge_frame(ctx, &g, which);
+                }
+                ctx.count_n("window_sweep_frames", 256);
+            }
             let d = match judge_frame(ctx, &frame, which) {
                 Some(d) => d,
                 None => continue,
